@@ -27,7 +27,7 @@ STRESSORS = [
     ("fd-limit", 3), ("self-include", 2), ("mutual-include", 2), ("define-self", 2),
     ("macro-recursive", 3), ("deep-if", 2), ("deep-paren", 2), ("long-token", 10),
     ("many-params", 2), ("nested-macros", 2), ("many-labels", 1), ("addr", 8), ("resb-align", 5),
-    ("lowhigh", 3), ("garbage", 8), ("options", 5), ("many-I", 1), ("binfile", 4),
+    ("lowhigh", 3), ("garbage", 8), ("options", 5), ("many-I", 3), ("binfile", 4),
     ("token-mutation", 12), ("long-macro-body", 3), ("long-macro-arg", 3), ("obj-arg", 4),
     ("div-zero", 2), ("deep-include", 2), ("repeat-big", 2), ("string-edge", 4), ("scope", 2),
     ("addr-top", 1), ("none", 3), ("unary-chain", 2), ("int-min-div", 1), ("macro-arg-escapes", 2),
@@ -299,8 +299,8 @@ class C16(Engine):
                 argv += ["a.asm"]
             plan["argv"] = argv
         elif kind == "many-I":
-            n = rng.pick([2, 50, 300])
-            ln = rng.pick([1, 20, 200, 4000])
+            n = rng.pick([1, 1, 2, 3, 50, 300])
+            ln = rng.pick([1, 20, 200, 1000, 1010, 1015, 1020, 1030, 2000, 4000]) if n <= 3 else rng.pick([1, 20, 200, 4000])
             argv = []
             for i in range(n):
                 p = "p%d" % i + "d" * ln
@@ -378,7 +378,8 @@ class C16(Engine):
             files["/sim/w/" + name] = data
             plan["argv"] = plan["argv"] + [name]
         elif kind == "div-zero":
-            add_line(rng.pick([".db 5/0", ".dw 5 % 0", ".db 1/(2-2)", ".if 1/0\n.endif", ".org 1/0", ".define DZ 0\n.db 4/DZ"]))
+            add_line(rng.pick([".db 5/0", ".dw 5 % 0", ".db 1/(2-2)", ".if 1/0\n.endif", ".org 1/0", ".define DZ 0\n.db 4/DZ",
+                               ".db 5 % 0.0", ".db 7 % (1.5 - 1.5)", ".db 5 / 0.0", ".dw 2 + 9 % 0.0", ".db 1.5 % 0", ".db 3 % -0.0", ".db 0.0 / 0.0"]))
         elif kind == "repeat-big":
             add_line(".repeat %d\n.db 1\n.endr" % rng.pick([4096, 65536]))
         elif kind == "scope":
